@@ -88,13 +88,13 @@ def content(rng, i):
     d = {}
     for k in rng.sample(KEYS, rng.randrange(1, 5)):
         if k in ("sub", "deep"):
-            d[k] = {kk: f"v{i}_{kk}" for kk in rng.sample(["x", "y", "z"], rng.randrange(1, 3))}
+            d[k] = {kk: rng.choice([f"v{i}_{kk}", f"v{i}_{kk}", None, 0]) for kk in rng.sample(["x", "y", "z"], rng.randrange(1, 3))}
             if rng.random() < 0.3:
                 d[k]["inner"] = {"w": f"v{i}_w"}
         elif k == "lst":
             d[k] = [i, f"v{i}"]
         else:
-            d[k] = rng.choice([f"v{i}_{k}", i, float(i) + 0.5, i % 2 == 0])
+            d[k] = rng.choice([f"v{i}_{k}", i, float(i) + 0.5, i % 2 == 0, None, None, 0, "", []])   # falsy values win like any other
     d[f"only{i}"] = i
     return d
 
